@@ -100,13 +100,19 @@ pub fn Suspense(props: SuspenseProps) -> View {
                 let suspense_stream = use_context::<SuspenseStream>();
                 suspense_stream.futures.borrow_mut().push(async move {
                     suspense_scope.until_finished().await;
+                    // The boundary may have been disposed in the meantime (e.g. the dynamic view
+                    // that contains it was re-rendered): there is nothing to stream then.
+                    if !suspense_scope.sent.is_alive() {
+                        return None;
+                    }
                     debug_assert!(!suspense_scope.sent.get(), "suspense scope should not yet be sent");
 
                     // Make sure parent is sent first.
                     let (tx, rx) = futures::channel::oneshot::channel();
                     let mut tx = Some(tx);
                     create_effect(move || {
-                        if suspense_scope.parent.as_ref().map_or(true, |parent| parent.get().sent.get()) {
+                        // A parent that is gone (and this boundary with it) is not waited for.
+                        if suspense_scope.parent.as_ref().map_or(true, |parent| !parent.is_alive() || parent.get().sent.get()) {
                             if let Some(tx) = tx.take() {
                                 // The fragment future may have been dropped in the meantime.
                                 let _ = tx.send(());
@@ -114,11 +120,14 @@ pub fn Suspense(props: SuspenseProps) -> View {
                         }
                     });
                     rx.await.unwrap();
+                    if !suspense_scope.sent.is_alive() {
+                        return None;
+                    }
                     // Only mark this scope as sent once its fragment is actually being yielded.
                     // Otherwise a nested scope could be woken up (and streamed) before this one.
                     suspense_scope.sent.set(true);
 
-                    SuspenseFragment::new(key, view! { Show(when=true) { (view) } })
+                    Some(SuspenseFragment::new(key, view! { Show(when=true) { (view) } }))
                 }.boxed_local());
 
                 // We need an end marker to know where to replace the fallback value.
@@ -299,7 +308,7 @@ pub(crate) struct SuspenseStream {
     pub futures: std::rc::Rc<
         std::cell::RefCell<
             futures::stream::FuturesUnordered<
-                futures::future::LocalBoxFuture<'static, SuspenseFragment>,
+                futures::future::LocalBoxFuture<'static, Option<SuspenseFragment>>,
             >,
         >,
     >,
